@@ -144,6 +144,28 @@ def check_C12(ctx, replay=None):
             nbad += 1
             p = ctx.violation("counterexample", dict(what="lookups of arch.%s are not mutual inverses" % k, problems=problems[:10]), True)
             rewrite_with_replay_cmd(ctx, p)
+    # direct search on the implementation: each record's audit identifier is the kernel's AUDIT_ARCH constant
+    # (vendored UAPI constants of coq/oracle/OracleConsts.v, the same the theorem C12_audit_ids is stated with)
+    kc = {}
+    with open(os.path.join(COQ, "oracle", "OracleConsts.v")) as f:
+        for m in re.finditer(r"Definition (\w+) : N := (\d+)\.", f.read()):
+            kc[m.group(1)] = int(m.group(2))
+    B64, LE, N32 = kc["AUDIT_ARCH_64BIT"], kc["AUDIT_ARCH_LE"], kc["AUDIT_ARCH_CONVENTION_MIPS64_N32"]
+    kernel_id = {"X86_64": kc["EM_X86_64"] | B64 | LE, "X32": kc["EM_X86_64"] | B64 | LE, "I386": kc["EM_386"] | LE, "ARM": kc["EM_ARM"] | LE,
+                 "AARCH64": kc["EM_AARCH64"] | B64 | LE, "PPC": kc["EM_PPC"], "PPC64": kc["EM_PPC64"] | B64, "PPC64LE": kc["EM_PPC64"] | B64 | LE,
+                 "S390": kc["EM_S390"], "S390X": kc["EM_S390"] | B64, "MIPS": kc["EM_MIPS"], "MIPSEL": kc["EM_MIPS"] | LE,
+                 "MIPS64": kc["EM_MIPS"] | B64, "MIPSEL64": kc["EM_MIPS"] | B64 | LE, "MIPS64N32": kc["EM_MIPS"] | B64 | N32,
+                 "MIPSEL64N32": kc["EM_MIPS"] | B64 | LE | N32}
+    for k, r in recs.items():
+        evaluations += 1
+        if k in kernel_id and r["id"] != kernel_id[k]:
+            nbad += 1
+            p = ctx.violation("counterexample", dict(what="the audit identifier of arch.%s is not the kernel's AUDIT_ARCH constant" % k,
+                                                     record=k, actual="0x%x" % r["id"], kernel="0x%x" % kernel_id[k]), True)
+            rewrite_with_replay_cmd(ctx, p)
+    ids_seen = {}
+    for k, r in recs.items():
+        ids_seen.setdefault(r["id"], []).append(k)
     # (b) GetInfo on alias spellings / non-aliases
     words = ["arm", "ppc", "ppc64", "ppc64le", "s390", "s390x", "mips", "mipsle", "mips64", "i386", "386", "x32", "x86_64", "amd64",
              "aarch64", "arm64", "mips64n32", "mips64p32", "mipsel64", "mips64le", "mipsel64n32", "mips64p32le"]
@@ -154,6 +176,11 @@ def check_C12(ctx, replay=None):
     for wd in ["", " amd64", "amd64 ", "x86-64", "x8664", "amd", "AMD64\x00", "riscv64", "loong64", "sparc64", "wasm", "mipsel", "armeb",
                "ı386", "armé64", "\xff", "İ386"]:
         inputs.append(wd.encode("utf-8", "surrogateescape") if isinstance(wd, str) else wd)
+    for wd in ["armeb", "armv7b", "armv7l", "aarch64_be", "arm64be", "arm64_32", "i486", "i586", "i686", "ia64", "sparc", "sparc64", "parisc", "parisc64",
+               "alpha", "sh", "sh64", "m68k", "riscv32", "riscv64", "loongarch64", "loongarch32", "ppcle", "s390x ", "mips64el", "x86", "x64", "ia32", "cris",
+               "frv", "h8300", "m32r", "microblaze", "openrisc", "tilegx", "tilepro", "unicore", "xtensa", "hexagon", "nds32", "arcompact", "arcv2", "c6x", "csky"]:
+        inputs.append(wd.encode())
+        inputs.append(wd.upper().encode())
     for _ in range(30 if ctx.tier == "quick" else 300):
         n = rng.randint(1, 8)
         inputs.append(bytes(rng.choice(b"aAmMdD64xX8_3iI2sSpPcClLeE 0") for _ in range(n)))
@@ -245,6 +272,14 @@ Print rt_count_ok.
     # direct search on GetInfo (property text itself, independent of the model)
     expect = {"amd64": "X86_64", "x86_64": "X86_64", "386": "I386", "i386": "I386", "arm64": "AARCH64", "aarch64": "AARCH64",
               "arm": "ARM", "x32": "X32"}
+    # every architecture name known to the package: the names of its records and of its audit-architecture table
+    known_names = set(r["name"].lower() for r in recs.values())
+    if gen:
+        with open(os.path.join(gen, "GenArches.v")) as f:
+            gtext = f.read()
+        i0 = gtext.find("Definition audit_names")
+        if i0 >= 0:
+            known_names.update(m.group(1).lower() for m in re.finditer(r'\(\d+, "([^"]*)"%string\)', gtext[i0:gtext.find("].", i0)]))
     for (b, st, k) in obs:
         try:
             s = b.decode()
@@ -255,6 +290,11 @@ Print rt_count_ok.
             nbad += 1
             p = ctx.violation("counterexample", dict(what="alias spelling does not resolve to its table", input=s, input_hex=b.hex(),
                                                      expected=expect[low], actual="%s %s" % (st, k)), True)
+            rewrite_with_replay_cmd(ctx, p)
+        if st == "OK" and low is not None and low not in expect and low in known_names:
+            nbad += 1
+            p = ctx.violation("counterexample", dict(what="the name of an architecture without syscall tables (known to the package) resolves to a table instead of being unsupported",
+                                                     input=s, input_hex=b.hex(), actual=k), True)
             rewrite_with_replay_cmd(ctx, p)
         if st == "OK" and recs.get(k, {}).get("nnum", 0) == 0:
             nbad += 1
@@ -711,6 +751,24 @@ def check_C13(ctx, replay=None):
             if f and f[0] == "D" and f[1] in byid and (f[4] != byid[f[1]][4] or f[5] != byid[f[1]][5]):
                 bad("a different process compiled the same policy to a different program (or printed a value differently)", case=line_of.get(f[1]),
                     first=byid[f[1]][4:], other=f[4:])
+    # first uses of the library happening concurrently, in fresh processes (race build): lazy initialisation and
+    # "remember what was asked" caches are exercised before anything has warmed them up
+    nfirst = 6 if q else 40
+    first_ok = 0
+    for v in range(nfirst):
+        rf = ctx.run_harness(["firstuse", str(v + ctx.seed * 100)], "", harness=race, env=env, timeout=300)
+        fr = rf.stderr.count("WARNING: DATA RACE")
+        if fr or rf.returncode == 66:
+            races += fr or 1
+            bad("the race detector reported a data race when the first uses of the library (architecture lookup under a mixed-case spelling, compilation with argument conditions, text conversion) happen concurrently",
+                reports=fr, report=rf.stderr[:3000], variant=v + ctx.seed * 100)
+            break
+        if rf.returncode != 0:
+            raise RuntimeError("firstuse (race build) failed: " + rf.stderr[-1500:])
+        if " ok" not in rf.stdout:
+            bad("concurrent first uses of the library gave results that differ from a sequential repeat: " + rf.stdout[:600], variant=v + ctx.seed * 100)
+            break
+        first_ok += 1
     # the text forms of all flag values in fresh processes
     texts = set()
     for _ in range(4 if q else 20):
@@ -720,8 +778,8 @@ def check_C13(ctx, replay=None):
         bad("FilterFlag.String is not a function of the value (differs between processes)", distinct=len(texts), outputs=sorted(texts)[:2])
     ctx.coverage.update(dict(
         evaluations=len(first) * (3 + 16) * (1 + nproc), distinct_nontrivial=len(set(f[4] for f in first)),
-        rule="generated policies of every kind (incl. 10%% defective, x32): each compiled 3 times on the same value and from 16 goroutines on by-value copies sharing its slices, concurrently with architecture lookups and action/flag text conversions, in a harness built with -race; the policy deep-compared with a fresh parse afterwards; the same stream compiled in %d further processes and compared by program hash; FilterFlag.String of 0..7 across fresh processes; non-trivial = distinct programs compared" % nproc,
-        processes=1 + nproc, race_reports=races, counterexamples=nbad,
+        rule="generated policies of every kind (incl. 10%% defective, x32): each compiled 3 times on the same value and from 16 goroutines on by-value copies sharing its slices, concurrently with architecture lookups and action/flag text conversions, in a harness built with -race; the policy deep-compared with a fresh parse afterwards; the same stream compiled in %d further processes and compared by program hash; FilterFlag.String of 0..7 across fresh processes; fresh race-built processes whose FIRST library operations (lookups under mixed-case spellings, compilations with argument conditions, text conversions) run in 16 goroutines released together and are compared with a sequential repeat; non-trivial = distinct programs compared" % nproc,
+        processes=1 + nproc + nfirst, race_reports=races, concurrent_first_use_processes=first_ok, counterexamples=nbad,
         input_distribution=dict(policies=len(first), accepted=sum(1 for f in first if True)),
         samples=[lines[0][:300]],
     ))
